@@ -24,7 +24,7 @@ ASSUMPTIONS = [
     'slice bounds range over None and [-len-2, len+2] (clamped like list slicing)',
 ]
 REQUIRED = ['shard_checks', 'merged_index_checks', 'merged_slice_checks',
-            'from_state_checks', 'iterable_shard_checks']
+            'from_state_checks', 'iterable_shard_checks', 'iterable_nested_shard_checks']
 EXHAUSTIVE = {'quick': True, 'thorough': True}
 
 
@@ -215,6 +215,31 @@ def check_iterable_case(ctx, case):
   flat = sorted(itertools.chain.from_iterable(lists))
   if flat != data:
     ctx.violation('iterable_not_partition', case, {'shards': lists})
+  # Nested: every shard re-sharded m ways partitions that shard (and the state of a
+  # sub-shard rebuilds the same sub-shard from the root).
+  for m in case.get('ms', (2, 3)):
+    for i in range(k):
+      parent = root.shard(i, k)
+      ctx.count('iterable_nested_shard_checks')
+      subs = []
+      for j in range(m):
+        sub = parent.shard(j, m)
+        l = list(sub)
+        subs.append(l)
+        if l != sorted(l):
+          ctx.violation('iterable_order', case, {'shard': [i, k, j, m], 'got': l},
+                        mechanism='iterable-nested-shard')
+        rb = list(root.from_state(sub.state))
+        ctx.count('from_state_checks')
+        if rb != l:
+          ctx.violation('iterable_from_state', case,
+                        {'shard': [i, k, j, m], 'got': rb, 'want': l},
+                        mechanism='iterable-nested-shard')
+      if sorted(itertools.chain.from_iterable(subs)) != lists[i]:
+        ctx.violation('iterable_nested_not_partition', case,
+                      {'parent': [i, k], 'm': m, 'parent_elements': lists[i], 'subs': subs},
+                      mechanism='iterable-nested-shard')
+        return
 
 
 def _run_shards(ctx, ns, depth2=True):
